@@ -5,6 +5,7 @@ import BridgeVerif.Driver.Auction
 import BridgeVerif.Driver.Play
 import BridgeVerif.Driver.Notation
 import BridgeVerif.Driver.Hands
+import BridgeVerif.Driver.Msg
 /-! The line-protocol driver: one op per line in, one canonical line out. -/
 namespace Bridge.Driver
 
@@ -37,6 +38,8 @@ def step (s : DState) (line : String) : DState × String :=
     else if op.startsWith "A." then
       let (a, o) := auctionOps s.auction t
       ({ s with auction := a }, o)
+    else if op.startsWith "M." || op.startsWith "F." then
+      (s, (msgOps t).getD "bad-op")
     else if op.startsWith "H." then
       (s, (handsOps t).getD "bad-op")
     else if op.startsWith "N." then
